@@ -16,6 +16,14 @@ type (
 
 type oddDoc struct {
 	Items []*oddItem `@@*`
+	// fields called like the position fields, of other types: ordinary grammar fields
+	Tokens []*oddWord `( "[" @@* "]"`
+	Pos    string     `  ( "at" @Ident )?`
+	EndPos *oddWord   `  ( "to" @@ )? )?`
+}
+
+type oddWord struct {
+	W string `@Ident`
 }
 
 type oddItem struct {
@@ -36,6 +44,8 @@ func init() {
 		`i 1 2 3 ;`,
 		`f 1.5 2 ; s a b c ; b yes yes ;`,
 		`p x ; n name = 7 on ; n other ;`,
+		`i 1 ; [ a b c ] at home to bed`,
+		`[ ]`,
 		``,
 	)
 	f.Flat = func(n int) string {
